@@ -4,7 +4,7 @@ import vlib, histcheck, jsonchecks, gen_doc
 from gen_doc import hx
 
 KINDS = {0: "std::string", 1: "const char* (linked)", 2: "char* (copied, source overwritten)", 3: "JsonString(copied)",
-         4: "Arduino String", 5: "flash string", 6: "string_view", 7: "a different kind at every operation"}
+         4: "Arduino String", 5: "flash string", 6: "string_view", 7: "a different kind at every operation", 8: "Printable (values; keys as std::string)"}
 
 def check(run):
     rnd = random.Random(run.seed * 256203221 + 14)
